@@ -507,6 +507,14 @@ class Concatenator(Group):  # pylint: disable=too-many-public-methods
         elif isinstance(entity, ConcatenatedObject):
             # First remove the children
             entity.remove_children(entity.children.copy())
+
+            # then the arrays stored for the object itself (surveys, trace, ...)
+            for label in list(self.index):
+                index = self.fetch_index(entity, label)
+                if index is not None:
+                    self.delete_index_data(label, index)
+                    self.save_attribute(label)
+
             object_ids = self.concatenated_object_ids
 
             if object_ids is not None:
